@@ -13,9 +13,10 @@ Interpretations (stated):
 * "reports keep arriving": inter-report spacing <= 1 s (1 Hz is the slowest rate of the quantifier).  The upper
   bound is read in its weakest form: once the stream has been continuous *and* unsuppressed for T_GenVamMax
   since the last VAM (or since the stream began), the report arriving then must produce a VAM;
-* a *position report* is a report that carries a position (lat, lon) and a time stamp; other reports create no
-  obligation (a VAM they trigger must still obey the spacing and low-frequency rules) and do not count as
-  "reports keep arriving";
+* a *position report* is a report that carries a position (lat and lon).  The first-VAM clause applies to every position
+  report, with or without a time stamp; the spacing clauses are measured "on the reports' timestamps", so they oblige
+  only for position reports that carry a time stamp (others do not count as "reports keep arriving"; a VAM they trigger
+  must still obey the spacing and low-frequency rules);
 * the minimum spacing is measured on the time stamps of the reports that triggered the two VAMs (reports
   without a time stamp are not measured);
 * the low-frequency rule is one-sided for VAMs (the statement has no "and none in between" clause); "generated at"
@@ -67,7 +68,8 @@ class VamRules:
             if vams:
                 out.append(dict(kind="vam_while_suppressed", count=len(vams)))
             return out
-        usable = all(k in report for k in ("time", "lat", "lon"))     # a *position report*: position and time stamp
+        positioned = "lat" in report and "lon" in report                # a *position report*: it carries a position
+        usable = positioned and "time" in report                         # ... and a time stamp (needed by the spacing rules)
         if usable:
             if self.prev_report_ms is None or ms - self.prev_report_ms > MAX_REPORT_PERIOD:
                 self.stream_start_ms = ms
@@ -75,10 +77,13 @@ class VamRules:
         if len(vams) > 1:
             out.append(dict(kind="vam_multiple_for_one_report", count=len(vams)))
         if not vams:
+            if not self.first_done:
+                # "sends a VAM at the first position report after activation": no time-stamp qualifier in that clause
+                if positioned:
+                    out.append(dict(kind="vam_first_missing", has_time="time" in report))
+                return out
             if not usable:
                 return out
-            if not self.first_done:
-                out.append(dict(kind="vam_first_missing"))
             else:
                 since = ms - max(self.last_vam_ms, self.stream_start_ms)
                 if since >= T_GEN_VAM_MAX:
